@@ -1301,7 +1301,7 @@ class Interp:
             if pl.get("p") == ["*"]:
                 # reborrow `&*x`: identity for string constants and plain references
                 v0 = f.locals.get(pl["l"])
-                if isinstance(v0, (Str, Ref)):
+                if isinstance(v0, (Str, Ref)) or (isinstance(v0, Top) and v0.ty is not None and self.p.types[v0.ty]["k"] in ("ref", "ptr")):
                     return v0
             base, proj = self.resolve_place(st, f, pl)
             return Ref(base, proj)
